@@ -100,6 +100,9 @@ func Parse(l, v string) (Time, error)          { return time.Parse(l, v) }
 func ParseDuration(s string) (Duration, error) { return time.ParseDuration(s) }
 func LoadLocation(n string) (*Location, error) { return time.LoadLocation(n) }
 func FixedZone(n string, o int) *Location      { return time.FixedZone(n, o) }
+func LoadLocationFromTZData(n string, d []byte) (*Location, error) {
+	return time.LoadLocationFromTZData(n, d)
+}
 func NewTicker(d Duration) *Ticker             { return time.NewTicker(d) }
 func Tick(d Duration) <-chan Time              { return time.Tick(d) }
 func ParseInLocation(l, v string, loc *Location) (Time, error) {
